@@ -37,6 +37,22 @@ def cases(ctx):
         pairs.append((a, b))
     yield Case([f'I.pair {a} {b}' for a, b in pairs], {'kind': 'pairs'})
     ctx.count('pairs', len(pairs))
+    # structured pairs: realistic scores of both signs in every relation to each other (equal, opposite, zero, swapped,
+    # sums on / next to every threshold)
+    scores = [0, 50, 90, 100, 110, 140, 200, 300, 400, 420, 430, 450, 500, 620, 630, 650, 800, 980, 1100, 1400, 1430, 1440,
+              2000, 2220, 2980, 3400, 4000, 7600]
+    scores = sorted(set(scores + [-x for x in scores]))
+    grid = [(a, b) for a in scores for b in scores]
+    th = [20, 50, 90, 130, 170, 220, 270, 320, 370, 430, 500, 600, 750, 900, 1100, 1300, 1500, 1750, 2000, 2250, 2500, 3000,
+          3500, 4000]
+    near = []
+    for t in th:
+        for a in (0, 100, -100, t, rng.randrange(-3000, 3000)):
+            for d in (-1, 0, 1):
+                near += [(a, t + d - a), (a, -(t + d) - a)]
+    struct = grid + near + [(a, a) for a in range(-4100, 4101, 10)] + [(a, -a) for a in range(-4100, 4101, 50)]
+    yield Case([f'I.pair {a} {b}' for a, b in struct], {'kind': 'structured-pairs'})
+    ctx.count('structured_pairs', len(struct))
 
 
 def impl_exec(ops):
